@@ -1,5 +1,3 @@
-//go:build wip
-
 package props
 
 // Shared by the module-zip properties C05, C12 and C17: wire encodings of file lists,
